@@ -261,11 +261,14 @@ class _Norm(ast.NodeTransformer):
             if isinstance(o, ast.UnaryOp) and isinstance(o.op, ast.Not) and isinstance(o.operand, (ast.Compare, ast.BoolOp, ast.UnaryOp)):
                 return o.operand
             if isinstance(o, ast.Compare) and len(o.ops) == 1 and type(o.ops[0]) in _NEG:
-                return ast.copy_location(ast.Compare(left=o.left, ops=[_NEG[type(o.ops[0])]()], comparators=o.comparators), n)
+                return self._orient(ast.copy_location(ast.Compare(left=o.left, ops=[_NEG[type(o.ops[0])]()], comparators=o.comparators), n))
         return n
 
     def visit_Compare(self, n):
         self.generic_visit(n)
+        return self._orient(n)
+
+    def _orient(self, n):
         if len(n.ops) == 1:
             op = n.ops[0]
             l, r = n.left, n.comparators[0]
